@@ -31,6 +31,17 @@ R15 = [
 ]
 
 
+_BAL = r'((?:[^()]|\((?:[^()]|\([^()]*\))*\))*)'   # balanced parentheses, nesting depth <= 2
+# R25: `X.split(|c| *c == SEP).all(|p| E)` -> explicit loop over the verified splitter VxSplit (prelude); `all` stops at
+# the first piece for which E is false, and so does the loop
+R25 = [
+    (r'(\w+)\s*\.split\(\|c\| \*c == (b\'.\')\)\s*\.all\(\|(\w+)\| ' + _BAL + r'\)',
+     lambda m: ('{ let mut vx_sp = VxSplit::new(%s, %s); let mut vx_ok = true;\n        loop {\n            match vx_sp.next() {\n                None => { break; }\n'
+                '                Some(%s) => {\n                    if !(%s) { vx_ok = false; break; }\n                }\n            }\n        }\n        vx_ok }')
+     % (m.group(1), m.group(2), m.group(3), ' '.join(m.group(4).split())), 'R25'),
+]
+
+
 def ranges(bs):
     out = []
     for b in sorted(bs):
@@ -73,6 +84,79 @@ def ref_text(n, dfa):
 {
     if s.len() == 0 { q } else { ref_delta_%(n)d(ref_run_%(n)d(q, s.drop_last()), s.last()) }
 }''' % dict(n=n))
+    return '\n'.join(lines)
+
+
+def ref_text_compressed(n, dfa):
+    """Same functions as ref_text, but consecutive states whose rows have the same shape -- byte class C1 -> q + 1, other
+    classes -> fixed states -- are emitted as one range case (`lo <= q <= hi`).  The emitted text is re-evaluated here on
+    every (state, byte) against the DFA table, so the compression cannot change the automaton unnoticed."""
+    def row_sig(q):
+        tg = {}
+        for c in range(256):
+            t = dfa.delta[q][c]
+            if t != dfa.dead:
+                key = ('rel', 1) if t == q + 1 else ('abs', t)
+                tg.setdefault(key, []).append(c)
+        return tuple(sorted((k, tuple(v)) for k, v in tg.items()))
+    groups = []
+    for q in range(dfa.n):
+        if q == dfa.dead:
+            continue
+        s = row_sig(q)
+        if groups and groups[-1][2] == s and groups[-1][1] == q - 1:
+            groups[-1][1] = q
+        else:
+            groups.append([q, q, s])
+    lines = ['pub open spec fn ref_delta_%d(q: int, c: u8) -> int {' % n]
+    first = True
+    for lo, hi, sig in groups:
+        inner = ''
+        for key, bs in sig:
+            inner += 'if %s { %s } else ' % (cond(list(bs)), 'q + 1' if key[0] == 'rel' else '%d' % key[1])
+        inner += '{ %d }' % dfa.dead
+        guard = 'q == %d' % lo if lo == hi else '%d <= q <= %d' % (lo, hi)
+        lines.append('    %sif %s { %s }' % ('' if first else 'else ', guard, inner))
+        first = False
+    lines.append('    else { %d }' % dfa.dead)
+    lines.append('}')
+    # self-check of the emitted case analysis against the table
+    for q in range(dfa.n):
+        for c in range(256):
+            want = dfa.delta[q][c]
+            got = dfa.dead
+            for lo, hi, sig in groups:
+                if lo <= q <= hi:
+                    for key, bs in sig:
+                        if c in bs:
+                            got = q + 1 if key[0] == 'rel' else key[1]
+                            break
+                    break
+            if got != want:
+                raise Lost('regex %d: compressed reference automaton disagrees with the DFA at state %d byte %d' % (n, q, c))
+    lines.append('pub open spec fn ref_accept_%d(q: int) -> bool { %s }' % (n, ' || '.join('(%d <= q <= %d)' % (a, b) if a != b else 'q == %d' % a for a, b in ranges(sorted(dfa.accept))) or 'false'))
+    lines.append('''pub open spec fn ref_run_%(n)d(q: int, s: Seq<u8>) -> int
+    decreases s.len()
+{
+    if s.len() == 0 { q } else { ref_delta_%(n)d(ref_run_%(n)d(q, s.drop_last()), s.last()) }
+}
+pub proof fn lemma_concat_%(n)d(q: int, a: Seq<u8>, b: Seq<u8>)
+    ensures ref_run_%(n)d(q, a + b) == ref_run_%(n)d(ref_run_%(n)d(q, a), b)
+    decreases b.len()
+{
+    if b.len() == 0 { assert(a + b =~= a); } else { lemma_concat_%(n)d(q, a, b.drop_last()); assert((a + b).drop_last() =~= a + b.drop_last()); }
+}
+pub proof fn lemma_dead_%(n)d(s: Seq<u8>)
+    ensures ref_run_%(n)d(%(dead)d, s) == %(dead)d
+    decreases s.len()
+{
+    if s.len() > 0 { lemma_dead_%(n)d(s.drop_last()); }
+}
+pub proof fn lemma_push_%(n)d(q: int, s: Seq<u8>, c: u8)
+    ensures ref_run_%(n)d(q, s.push(c)) == ref_delta_%(n)d(ref_run_%(n)d(q, s), c)
+{
+    assert(s.push(c).drop_last() =~= s);
+}''' % dict(n=n, dead=dfa.dead))
     return '\n'.join(lines)
 
 
@@ -217,6 +301,101 @@ def tree_lemma(n, d, cap=600):
     return '\n'.join(out) + '\n' + '\n'.join(pf) + '\n', dict(tree_nodes=nodes[0], loop_nodes=len(loopnodes), depth=maxdepth[0])
 
 
+PAT17 = 'forall|k: int| 0 <= k < %s ==> (if k %% 3 == 2 { s@[k] == 58 } else { is_hexdigit(#[trigger] s@[k]) })'
+
+SPLIT_VALIDATORS = {
+    # ([0-9a-fA-F]{2}:){5}[0-9a-fA-F]{2}: the DFA is a chain, so the generated closed form st_17 applies; the loop invariant
+    # says that the text before the splitter position follows the pattern hex hex ':' ...
+    17: dict(loops={0: dict(
+        invariant_except_break=['vx_ok', '!vx_sp.done ==> vx_sp.pos % 3 == 0 && vx_sp.pos <= 15', 'vx_sp.done ==> vx_sp.pos == 17', PAT17 % 'vx_sp.pos'],
+        invariant=['vx_sp.wf()', 'vx_sp.s == s', 'vx_sp.sep == 58u8', 's.len() == 17'],
+        ensures=['vx_ok ==> (%s)' % (PAT17 % '17'), '!vx_ok ==> !ref_accept_17(st_17(s@))'],
+        decreases='(if vx_sp.done { 0int } else { 1int }) + s.len() - vx_sp.pos')},
+        proofs=[dict(after=r'loop\s*\{', indent=True, text='proof { if !vx_sp.done { lemma_first_sep(s@, 58u8, vx_sp.pos as int); } }')]),
+}
+
+
+PIECE_24 = r'''
+pub open spec fn valid8(p: Seq<u8>) -> bool { ref_accept_8(st_8(p)) }
+
+// one '/'-free piece, read from the start state (0) or from the state after a '/' (%(Q)d): it ends in segment state
+// %(Q)d + len if the piece is a regex-8 identifier of at most %(MAX)d bytes, stays put if it is empty, and is dead otherwise
+pub proof fn lemma_piece_24(q: int, p: Seq<u8>)
+    requires q == 0 || q == %(Q)d, forall|k: int| 0 <= k < p.len() ==> #[trigger] p[k] != 47
+    ensures ref_run_24(q, p) == (if p.len() == 0 { q } else if valid8(p) && p.len() <= %(MAX)d { %(Q)d + p.len() as int } else { %(DEAD)dint })
+    decreases p.len()
+{
+    if p.len() > 0 {
+        let t = p.drop_last();
+        lemma_piece_24(q, t);
+        if t.len() > 0 {
+            assert(t[0] == p[0]);
+            if (forall|k: int| 1 <= k < t.len() ==> cls_8_%(ACC8)d(#[trigger] t[k])) && cls_8_%(ACC8)d(p.last()) {
+                assert forall|k: int| 1 <= k < p.len() implies cls_8_%(ACC8)d(#[trigger] p[k]) by { if k < t.len() { assert(t[k] == p[k]); } }
+            }
+            if forall|k: int| 1 <= k < p.len() ==> cls_8_%(ACC8)d(#[trigger] p[k]) {
+                assert forall|k: int| 1 <= k < t.len() implies cls_8_%(ACC8)d(#[trigger] t[k]) by { assert(t[k] == p[k]); }
+            }
+        }
+    }
+}
+'''
+
+
+def split24(infos):
+    """/?SEG(/SEG)* with SEG = regex 8 limited to 128 bytes: the proof template names the states start / after-slash /
+    segment(len) / dead; their numbers are read off the minimal DFA and the template's assumptions about it are checked here
+    (the lemmas themselves are proved by Verus against the concrete automaton, so a wrong reading cannot verify)."""
+    d = infos[24]['dfa']
+    d8 = infos[8]['dfa']
+    Q = d.run(b'/')
+    ok = d.start == 0 and d.dead is not None and d.run(b'a/') == Q and all(d.run(b'a' * j) == Q + j for j in range(1, 129)) and d.run(b'a' * 129) == d.dead \
+        and d.run(b'//') == d.dead and d8.n == 3 and len(d8.accept) == 1
+    if not ok:
+        raise Lost('regex 24: the minimal DFA no longer has the shape start / after-slash / segment(1..128) / dead that the proof template assumes')
+    acc8 = list(d8.accept)[0]
+    spec = ref_text_compressed(24, d) + PIECE_24 % dict(Q=Q, MAX=128, DEAD=d.dead, ACC8=acc8)
+    run = 'ref_run_24(0, s@'
+    loops = {0: dict(
+        invariant_except_break=['vx_ok',
+                                '!vx_sp.done ==> %s.subrange(0, off + vx_sp.pos)) == (if vx_sp.pos == 0 && off == 0 { 0int } else { %dint })' % (run, Q),
+                                'vx_sp.done ==> ref_accept_24(%s))' % run],
+        invariant=['vx_sp.wf()', 'vx_sp.s == path', 'vx_sp.sep == 47u8', 's.len() > 0', '(off == 0 || off == 1)', 'path@ =~= s@.subrange(off, s.len() as int)', 'off == 0 ==> s@[0] != 47'],
+        ensures=['vx_ok == ref_accept_24(%s))' % run],
+        decreases='(if vx_sp.done { 0int } else { 1int }) + path.len() - vx_sp.pos')}
+    proofs = [
+        dict(before=r'^\s*\{ let mut vx_sp = VxSplit::new\(path', text='''let ghost off: int = s.len() - path.len();
+proof {
+    assert(s@.subrange(0, 0) =~= Seq::<u8>::empty());
+    if off == 1 { assert(s@.subrange(0, 1) =~= Seq::<u8>::empty().push(s@[0])); lemma_push_24(0, Seq::<u8>::empty(), s@[0]); }
+}'''),
+        dict(after=r'loop\s*\{', indent=True, text='let ghost p0 = vx_sp.pos as int;'),
+        dict(after=r'Some\(part\) => \{', indent=True, text='''proof {
+    let e = first_sep(path@, 47u8, p0);
+    lemma_first_sep(path@, 47u8, p0);
+    let q = if p0 == 0 && off == 0 { 0int } else { %(Q)dint };
+    let pre = s@.subrange(0, off + p0);
+    assert forall|k: int| 0 <= k < part@.len() implies #[trigger] part@[k] != 47 by { assert(part@[k] == path@[p0 + k]); }
+    lemma_piece_24(q, part@);
+    lemma_concat_24(0, pre, part@);
+    assert(s@.subrange(0, off + e) =~= pre + part@);
+    lemma_run_8(part@);
+    if e < path.len() {
+        assert(s@[off + e] == 47);
+        assert(s@.subrange(0, off + e + 1) =~= s@.subrange(0, off + e).push(47u8));
+        lemma_push_24(0, s@.subrange(0, off + e), 47u8);
+        let rest = s@.subrange(off + e + 1, s.len() as int);
+        assert(s@ =~= s@.subrange(0, off + e + 1) + rest);
+        lemma_concat_24(0, s@.subrange(0, off + e + 1), rest);
+        lemma_dead_24(rest);
+    } else {
+        assert(s@.subrange(0, off + e) =~= s@);
+    }
+    if part.len() == 0 && p0 == 0 && off == 0 { assert(path@[0] == s@[0]); }
+}''' % dict(Q=Q))]
+    return spec, loops, proofs, dict(states=d.n, after_slash=Q, segment_states='%d..%d' % (Q + 1, Q + 128))
+
+
 def make_unit(infos):
     spec = ''
     fns = []
@@ -235,6 +414,25 @@ def make_unit(infos):
         fns.append(FnSpec('validate_regex_%d' % n, F, ret='r', body_sub=R15, sig_sub=[(r'pub\(crate\) fn', 'pub fn')],
                           ensures=['r == ref_accept_%d(ref_run_%d(0, s@))' % (n, n)],
                           proofs=[dict(at='body_start', text='proof { lemma_run_%d(s@); %s }' % (n, extra))]))
+    for n, cfg in SPLIT_VALIDATORS.items():
+        if n not in infos or infos[n]['kind'] != 'hand':
+            continue
+        d = infos[n]['dfa']
+        try:
+            lem, sh = tree_lemma(n, d)
+        except Shape as e:
+            raise Lost('regex %d: minimal DFA of %r is outside the shape the generated lemma handles (%s)' % (n, infos[n]['regex'], e))
+        shapes[n] = sh
+        spec += ref_text(n, d) + '\n' + lem
+        fns.append(FnSpec('validate_regex_%d' % n, F, ret='r', body_sub=R25 + R15, sig_sub=[(r'pub\(crate\) fn', 'pub fn')],
+                          ensures=['r == ref_accept_%d(ref_run_%d(0, s@))' % (n, n)], loops=cfg['loops'],
+                          proofs=[dict(at='body_start', text='proof { lemma_run_%d(s@); }' % n)] + cfg['proofs']))
+    if 24 in infos and infos[24]['kind'] == 'hand' and 8 in shapes:
+        sp, loops, proofs, sh = split24(infos)
+        shapes[24] = sh
+        spec += sp
+        fns.append(FnSpec('validate_regex_24', F, ret='r', body_sub=R25 + R15, sig_sub=[(r'pub\(crate\) fn', 'pub fn')],
+                          ensures=['r == ref_accept_24(ref_run_24(0, s@))'], loops=loops, proofs=proofs))
     u = Unit(name='regex_hand', prop='C19', spec=spec, fns=fns,
              dropped=['doc comments; `pub(crate)` -> `pub`'])
     u.shapes = shapes
